@@ -9,8 +9,9 @@ from persim import heat, wasserstein
 from ..core import Clause
 from ..oracles import kernels as K
 from ..oracles import matching as M
-from ..strategies import diagram_family, permutation_of, valid_family
+from ..strategies import dict_of, diagram_family, permutation_of, valid_family
 
+FUZZ = ["value"]
 RULE = ("Diagrams of 0..10 points (the implementation is an O(mn) Python loop) from a shared lattice / ulp-perturbed / float "
         "family; sigma = (family scale)^2 * 10^j, j in -3..3, so that the kernel width is commensurate with the data at every scale.")
 ASSUMPTIONS = [
@@ -56,7 +57,7 @@ def labels(ctx, fam, rel):
 
 # ------------------------------------------------------------------------------------
 
-s_value = st.fixed_dictionaries({"fam": diagram_family(count=2, min_size=0, max_size=10), "rel": SIG})
+s_value = dict_of({"fam": diagram_family(count=2, min_size=0, max_size=10), "rel": SIG})
 
 
 def check_value(case, ctx):
@@ -131,7 +132,7 @@ def check_near(case, ctx):
     ctx.require(abs(v * v - ref2) <= tol, "value", lambda: "heat^2=%r ref^2=%r tol=%r" % (v * v, ref2, tol))
 
 
-s_triple = st.fixed_dictionaries({"fam": diagram_family(count=3, min_size=0, max_size=8), "rel": SIG})
+s_triple = dict_of({"fam": diagram_family(count=3, min_size=0, max_size=8), "rel": SIG})
 
 
 def check_metric(case, ctx):
@@ -185,7 +186,7 @@ def check_invariance(case, ctx):
     ctx.require(abs(v3 * v3 - base * base) <= tol, "translation", lambda: "translated by %r: %r vs %r" % (c, v3, base))
 
 
-s_stab = st.fixed_dictionaries({"fam": diagram_family(count=2, min_size=0, max_size=8, allow_diag=True), "rel": SIG})
+s_stab = dict_of({"fam": diagram_family(count=2, min_size=0, max_size=8, allow_diag=True), "rel": SIG})
 
 
 def check_stability(case, ctx):
